@@ -145,6 +145,9 @@ func WorkerMain(args []string) int {
 				limit = 150 * time.Second
 			}
 		}
+		if f, err := strconv.Atoi(os.Getenv("VERIF_STALL_FACTOR")); err == nil && f > 1 {
+			limit *= time.Duration(f)
+		}
 		x.StartStallWatchdog(limit, strings.TrimSuffix(args[5], ".json")+".stall.json")
 	}
 	mon.Run(x)
@@ -477,7 +480,17 @@ func (d *driver) runShard(shard, n int) {
 			}
 		}
 		if hangs < 3 {
+			// the suspect ends when it runs alone: a slow case, not an endless one. The shard is played once more with ten
+			// times the patience, so that what its other cases observe is not lost with it
+			os.Remove(base + ".stall.json")
+			oc3 := d.runChild(args, append(append([]string{}, env...), "VERIF_STALL_FACTOR=10"), base+".log", base+".json", d.shardTimeout())
 			d.mu.Lock()
+			if oc3.ok && oc3.res != nil {
+				d.merged.Counts["watchdog-not-reproduced:shard-completed-with-more-patience"]++
+				d.mu.Unlock()
+				d.merge(oc3.res)
+				return
+			}
 			d.merged.Inconclusive++
 			d.merged.Counts["inconclusive:watchdog-not-reproduced"]++
 			d.mu.Unlock()
